@@ -313,6 +313,83 @@ def tolerance_job(args):
     return res
 
 
+def ground_height_job(args):
+    """A wire end near the ground plane is grounded exactly when its height is within 1/1000 of the shortest segment
+    of the plane -- on either side (a residue below zero is snapped to the plane like one above).  Height symbolic."""
+    (qt,) = args
+    sh = symx.load()
+    M = sh.mininec
+    mm = symx.real_mininec()
+    res = dict(obls=[], paths=0, solver_s=0.0, queries=0, functions=[], violations=[], truncated=False)
+    A, B = (0.3, 0.2, 0.0), (0.9, 1.0, 1.7)
+    n1 = 4
+    msl = float(np.linalg.norm(np.array(B) - np.array(A))) / n1
+    eps = 1e-3 * msl
+    for end in (0, 1):
+        def fn(end=end):
+            c = symx.ctx()
+            h = SR.var('h')
+            c.assume(z3.And(h.n >= core.RV(-0.9 * eps), h.n <= core.RV(3 * eps)))
+            p = (A[0], A[1], h)
+            with symx.object_arrays():
+                w = M.Wire(n1, *p, *B, 0.002) if end == 0 else M.Wire(n1, *B, *p, 0.002)
+                m = M.Mininec(29.98, [w], media=[M.Medium(0, 0)])
+            return dict(m=m, h=h)
+        with symx.shadow.trace_functions(sh):
+            paths = symx.explore(fn, query_timeout_ms=qt, max_paths=20)
+        res['functions'] = sorted(set(res['functions']) | set(sh.entered))
+        res['paths'] += len(paths)
+        res['solver_s'] += paths.solver_s
+        res['queries'] += paths.queries
+        for pi, p in enumerate(paths):
+            on = 'ground-height-end%d/path%d' % (end + 1, pi)
+            if p.exc is not None:
+                if isinstance(p.exc, ValueError):
+                    continue
+                raise symx.HarnessError('%s: %r' % (on, p.exc)) from p.exc
+            n = len(p.value['m'].pulses)
+            h = p.value['h']
+            grounded = (n == n1)
+            if not grounded and n != n1 - 1:
+                raise symx.HarnessError('ground-height harness: unexpected pulse count %d' % n)
+            # |h| < eps  <=>  grounded.  eps is 1/1000 of the shortest segment of the wire AS ENTERED (its length changes with h by
+            # a few 1e-4 relative), so a sliver of 1e-3 relative around the tolerance is left undecided
+            goal = z3.And(h.n < core.RV(eps * (1 + 1e-3)), h.n > core.RV(-eps * (1 + 1e-3))) if grounded else \
+                z3.Or(h.n >= core.RV(eps * (1 - 1e-3)), h.n <= core.RV(-eps * (1 - 1e-3)))
+            s = z3.Solver()
+            s.set('timeout', qt)
+            s.add(p.pc + p.axioms)
+            s.add(z3.Not(goal))
+            r = str(s.check())
+            res['queries'] += 1
+            on += '/grounded<=>within tolerance' if grounded else '/not grounded<=>beyond tolerance'
+            if r == 'unsat':
+                res['obls'].append((on, 'discharged', None))
+            elif r == 'unknown':
+                res['obls'].append((on, 'inconclusive', None))
+            else:
+                hc = float(core.model_value(s.model(), h))
+                pc_ = (A[0], A[1], hc)
+                try:
+                    mr = mm.Mininec(29.98, [mm.Wire(n1, *pc_, *B, 0.002) if end == 0 else mm.Wire(n1, *B, *pc_, 0.002)], media=[mm.Medium(0, 0)])
+                    got = len(mr.pulses)
+                except ValueError:
+                    got = None
+                eps_h = 1e-3 * float(np.linalg.norm(np.array(B) - np.array(pc_))) / n1          # tolerance of the wire as entered
+                if abs(abs(hc) - eps_h) < 1e-6 * eps_h:
+                    res['obls'].append((on, 'inconclusive', 'model on the tolerance boundary'))
+                    continue
+                want = n1 if abs(hc) < eps_h else n1 - 1
+                if got is not None and got != want:
+                    v = ('C12:ground-height', 'a wire whose end %d is %r above the ground plane (tolerance %r) gets %d pulses, the topology formula gives %d'
+                         % (end + 1, hc, eps, got, want), dict(kind='ground-height', height=hc, end=end + 1))
+                    res['violations'].append(v)
+                    res['obls'].append((on, 'violation', v[1]))
+                else:
+                    res['obls'].append((on, 'spurious', dict(height=hc)))
+    return res
+
+
 def main(args):
     ck = Check('C12', args)
     ck.shadow_stats = symx.load().stats
@@ -338,7 +415,8 @@ def main(args):
     with mp.Pool(min(16, os.cpu_count() or 1)) as pool:
         r1 = pool.map_async(topo_job, jobs, chunksize=1)
         r2 = pool.map_async(tolerance_job, tjobs, chunksize=1)
-        results = r1.get() + r2.get()
+        r3 = pool.map_async(ground_height_job, [(qt,)], chunksize=1)
+        results = r1.get() + r2.get() + r3.get()
     funcs = set()
     for r in results:
         funcs.update(r['functions'])
